@@ -59,7 +59,7 @@ func TestC01(t *testing.T) {
 	runWitnesses(t, "C01")
 
 	// (i) one step axis::test from every node of the document
-	runProp(t, "step", 1500, 40000, func(t *rapid.T) {
+	runProp(t, "step", 6000, 40000, func(t *rapid.T) {
 		ev := xmodel.Gen(t, docCfg())
 		p, err := prepareDoc(ev)
 		if err != nil {
@@ -104,13 +104,13 @@ func TestC01(t *testing.T) {
 	})
 
 	// (ii) partition / duality / root laws on the implementation alone
-	runProp(t, "laws", 800, 20000, func(t *rapid.T) {
+	runProp(t, "laws", 3200, 20000, func(t *rapid.T) {
 		c := &c01LawCase{Events: xmodel.Gen(t, docCfg())}
 		c01Laws.run(t, c)
 	})
 
 	// (iii) multi-step paths, absolute paths inside predicates and arguments
-	runProp(t, "paths", 6000, 300000, func(t *rapid.T) {
+	runProp(t, "paths", 24000, 300000, func(t *rapid.T) {
 		ev := xmodel.Gen(t, docCfg())
 		p, err := prepareDoc(ev)
 		if err != nil {
